@@ -617,7 +617,7 @@ R7_MODULES = ("onnx_ir._type_casting", "onnx_ir._core", "onnx_ir.serde", "onnx_i
               "onnx_ir._convenience._constructors", "onnx_ir._safetensors")
 
 
-def rule_r7(ctx):
+def rule_r7(ctx, rule="R7", consequence=""):
     n_sites = 0
     for mn in R7_MODULES:
         m = ctx.repo.modules.get(mn)
@@ -635,10 +635,10 @@ def rule_r7(ctx):
                 pos = c.args[0] if name in ("ravel", "flatten", "tobytes") and isinstance(c.func, ast.Attribute) and c.args else None
                 val = kw[0].value if kw else pos
                 ok = val is None or (isinstance(val, ast.Constant) and val.value in ("C", None))
-                ctx.check("R7", f"{f.local}: {short(norm(c))} is row-major", ok, f, c,
+                ctx.check(rule, f"{f.local}: {short(norm(c))} is row-major", ok, f, c,
                           f"`{short(norm(c))}` takes the elements in memory/column order (order={norm(val) if val is not None else ''}): for an "
                           "array whose axes are permuted in memory (a transpose, Fortran order) the flattened elements - and the "
-                          "packed bytes built from them - are those of a different logical tensor than numpy()/shape report",
+                          "packed bytes built from them - are those of a different logical tensor than numpy()/shape report" + consequence,
                           how="order argument of the array call is absent or the constant 'C'", nontrivial=val is not None,
                           construct=short(norm(c)))
     ctx.require(n_sites >= 30, f"only {n_sites} order-sensitive array calls found on the tensor byte paths")
